@@ -232,12 +232,76 @@ def _bv_arg(t):
     return None
 
 
+XOR8 = z3.Function('xor8', IntSort, IntSort, IntSort)
+XOR8_FACTS = []      # (term, fact) instantiated axioms, picked up by the context that created them
+
+
+def maybe_bits(t, depth=0):
+    """over-approximation of the set of bits that can be 1 in a non-negative Int term (python int mask) or None"""
+    if depth > 30:
+        return None
+    if z3.is_int_value(t):
+        v = t.as_long()
+        return v if v >= 0 else None
+    k = t.decl().kind() if z3.is_app(t) else None
+    ch = t.children() if z3.is_app(t) else []
+    if k == z3.Z3_OP_MUL and len(ch) == 2:
+        for x, c in ((ch[0], ch[1]), (ch[1], ch[0])):
+            if z3.is_int_value(c):
+                cv = c.as_long()
+                if cv > 0 and cv & (cv - 1) == 0:
+                    m = maybe_bits(x, depth + 1)
+                    return None if m is None else m * cv
+    if k == z3.Z3_OP_ADD:
+        acc = 0
+        for c in ch:
+            m = maybe_bits(c, depth + 1)
+            if m is None or (acc & m):
+                acc = None
+                break
+            acc |= m
+        if acc is not None:
+            return acc
+    if k == z3.Z3_OP_ITE:
+        m1, m2 = maybe_bits(ch[1], depth + 1), maybe_bits(ch[2], depth + 1)
+        if m1 is not None and m2 is not None:
+            return m1 | m2
+    if k == z3.Z3_OP_MOD and len(ch) == 2 and z3.is_int_value(ch[1]):
+        cv = ch[1].as_long()
+        if cv > 0 and cv & (cv - 1) == 0:
+            m = maybe_bits(ch[0], depth + 1)
+            return (cv - 1) if m is None else (m & (cv - 1))
+    if k == z3.Z3_OP_IDIV and len(ch) == 2 and z3.is_int_value(ch[1]):
+        cv = ch[1].as_long()
+        if cv > 0 and cv & (cv - 1) == 0:
+            m = maybe_bits(ch[0], depth + 1)
+            if m is not None:
+                return m >> (cv.bit_length() - 1)
+    lo, hi = bounds(t)
+    if lo is not None and hi is not None and lo >= 0:
+        return (1 << hi.bit_length()) - 1
+    return None
+
+
 def int_bitop(op, a, b):
     """op in BitAnd/BitOr/BitXor on two z3 Int terms"""
     ca = a.as_long() if z3.is_int_value(a) else None
     cb = b.as_long() if z3.is_int_value(b) else None
     if ca is not None and cb is not None:
         return z3.IntVal({'BitAnd': ca & cb, 'BitOr': ca | cb, 'BitXor': ca ^ cb}[op])
+    if op == 'BitXor' and ca is None and cb is None:
+        (la, ha), (lb, hb) = bounds(a), bounds(b)
+        if None not in (la, ha, lb, hb) and la >= 0 and lb >= 0 and ha <= 255 and hb <= 255:
+            # byte XOR between two symbolic bytes: an uninterpreted function with its range and involution law
+            # (code and specification share it: the proofs are about WHICH bytes are combined)
+            r = XOR8(a, b)
+            declare_bounds(r, 0, 255)
+            XOR8_FACTS.append((r, z3.And(r >= 0, r <= 255, XOR8(r, b) == a, XOR8(a, b) == XOR8(b, a))))
+            return r
+    if op in ('BitOr', 'BitXor'):
+        ma, mb = maybe_bits(a), maybe_bits(b)
+        if ma is not None and mb is not None and (ma & mb) == 0:
+            return a + b            # disjoint bit ranges: or = xor = plus
     xa, xb = _bv_arg(a), _bv_arg(b)
     if xa is not None and xb is not None and xa.size() == xb.size():
         r = {'BitAnd': xa & xb, 'BitOr': xa | xb, 'BitXor': xa ^ xb}[op]
@@ -606,6 +670,13 @@ def slice_bounds(lo, hi, n):
     return one(lo), one(hi)
 
 
+def ba_source(t):
+    """if t is ba2bytes(arr, n) return (arr, n)"""
+    if z3.is_app(t) and t.decl().name() == 'ba2bytes':
+        return t.children()[0], t.children()[1]
+    return None
+
+
 def spec_getitem(v, k):
     return getitem(v, k, None)
 
@@ -623,6 +694,9 @@ def getitem(v, k, ctx):
         if ctx is not None:
             ctx.raise_if(sbool(z3.Or(i < 0, i >= n)), 'IndexError')
         if v.ty == 'bytes':
+            src = ba_source(v.t)
+            if src is not None:
+                return mk(z3.Select(src[0], i), 'int')
             return mk(z3.BV2Int(v.t[i]), 'int')
         return mk(z3.SubSeq(v.t, i, z3.IntVal(1)), 'str')
     if isinstance(v, (bytes, str)):
